@@ -34,6 +34,9 @@ RULE = ("(a) mutate suite on ImmutableStructure classes and classes with Immutab
         "an immutable class, every attempt raises; (h) immfield specs for user-defined immutable wrappers "
         "(class X(ImmutableField, AnyOf|OneOf|AllOf|Array|Deque|Map|Integer)) and untyped immutable sets / tuples / Anything "
         "holding structures: direct re-assignment / None / deletion, accessor probe, constructor-argument aliasing; "
+        "(i) table-directed accessor probe: every accessor the extractor lists for the Lean table (native members exposing "
+        "references found by probing + every non-mutating method the wrapper defines) x 2 owners x 2 shapes x canned "
+        "arguments: every object handed out x mutation attempts of its runtime type, each on a fresh instance; "
         "non-trivial = >=1 op/probe; distinct by case hash")
 ASSUMPTIONS = [
     "default configuration (defensive_copy_on_get on, no trusted instantiation); direct __dict__/object.__setattr__ access excluded",
@@ -197,6 +200,88 @@ def run_undefimm(case):
     return {"steps": steps}
 
 
+# ---- table-directed accessor probe: every accessor the extractor lists for the Lean table (native members that expose
+# references + whatever the wrapper class defines itself) is called on the wrapper of a real immutable owner, every
+# object it hands out is attacked with every mutation attempt of its runtime type, each on a FRESH instance; the owner's
+# fingerprint must not change.  This is what turns a `raw` row of the table into a failing input.
+def accprobe_cases(tier="quick"):
+    from extract import aliasing_c04 as A
+    names = A.accessor_names()
+    out = []
+    for owner in ("immutable-structure", "immutable-field"):
+        for shape in ("untyped", "nested"):
+            for kind in ("list", "dict", "deque"):
+                for name in names[kind]:
+                    out.append({"suite": "accprobe", "owner": owner, "shape": shape, "kind": kind, "accessor": name,
+                                "full": tier != "quick"})
+    return out
+
+
+def run_accprobe(case):
+    from extract import aliasing_c04 as A
+    cls, vals = A._owners()[(case["owner"], case["shape"])]
+    kind, name = case["kind"], case["accessor"]
+    ctx = C.make_ctx()
+
+    def fresh():
+        x = cls(**{"f_" + kind: vals()[kind]})
+        return x, getattr(x, "f_" + kind)
+
+    def fp(x):
+        if case["owner"] == "immutable-field":
+            # the owner is a MUTABLE structure (its state may be handed out and changed): only the immutable field is watched
+            return repr(aliasprobe.deep_canon(x.__dict__["f_" + kind]))
+        return (str(x), repr(Serializer_safe(x)))
+    leaks, attempts = [], 0
+    x0, w0 = fresh()
+    for ai in range(len(A._canned(kind, w0))):
+        def obtained(w, ai=ai):
+            args = A._canned(kind, w)[ai]
+            member = getattr(w, name, None)
+            if member is None:
+                return []
+            try:
+                res = member(*args)
+            except Exception:
+                return []
+            return [o for o in A._walk(res) if aliasprobe.mutation_attempts(o)]
+        objs = obtained(w0)
+        for oi in range(min(len(objs), 6 if case.get("full") else 3)):
+            n_att = len(aliasprobe.mutation_attempts(objs[oi]))
+            # quick tier: three attempts per object (first, middle, last of the introspected list) - any mutation that goes
+            # through reveals the leak; thorough: all of them
+            picks = range(n_att) if case.get("full") or n_att <= 3 else sorted({0, n_att // 2, n_att - 1})
+            for mi in picks:
+                x, w = fresh()
+                before = fp(x)
+                got = obtained(w)
+                if oi >= len(got):
+                    continue
+                atts = aliasprobe.mutation_attempts(got[oi])
+                if mi >= len(atts):
+                    continue
+                label, attempt = atts[mi]
+                attempts += 1
+                try:
+                    attempt()
+                except Exception:
+                    pass
+                if fp(x) != before:
+                    leaks.append({"mut": label, "args": ai})
+        if objs and case["shape"] == "nested":
+            break       # one argument tuple that hands out objects is enough for the typed shape; the untyped one tries all
+        x0, w0 = fresh()
+    return {"leaks": leaks[:20], "attempts": attempts}
+
+
+def Serializer_safe(x):
+    from typedpy import Serializer
+    try:
+        return Serializer(x).serialize()
+    except Exception as e:
+        return "serialize-raises:" + type(e).__name__
+
+
 def pre_build():
     from extract import wrappers, aliasing_c04
     wrappers.generate()
@@ -266,7 +351,8 @@ def cases(rng, tier):
     n = 250 if tier == "quick" else 3000
     return S.gen_cases(rng, tier, n, immutable=True) + S.gen_cases(rng, tier, n // 2, immutable=None) \
         + alias_cases(rng, 25 if tier == "quick" else 400) + immfield_cases() + undefined_cases() + DI.cases() \
-        + S.gen_cases_ext(rng, tier, n // 3, immutable=True) + S.gen_cases_ext(rng, tier, n // 3, immutable=None)
+        + S.gen_cases_ext(rng, tier, n // 3, immutable=True) + S.gen_cases_ext(rng, tier, n // 3, immutable=None) \
+        + accprobe_cases(tier)
 
 
 def search_cases(rng, tier):
@@ -282,6 +368,8 @@ def run_impl(case):
         return run_undefimm(case)
     if case["suite"] == "deepimm":
         return DI.run_impl(case)
+    if case["suite"] == "accprobe":
+        return run_accprobe(case)
     res = C.run_impl(case)
     if "ok" not in res:
         return res
@@ -362,7 +450,7 @@ def _short_path(path):
 
 
 def line(case, impl):
-    if case["suite"] in ("immfield", "undefimm", "deepimm"):
+    if case["suite"] in ("immfield", "undefimm", "deepimm", "accprobe"):
         return None
     return S.line(case, impl) if case["suite"] == "mutate" else C.line(case, impl)
 
@@ -376,6 +464,8 @@ def tags(case, impl, model):
         return ["undefimm:" + ("class" if case["immutable_class"] else "fields")]
     if case["suite"] == "deepimm":
         return ["deepimm:" + case["mode"], "deepimm-shape:" + case["shape"]]
+    if case["suite"] == "accprobe":
+        return ["accprobe:" + case["kind"] + "." + case["accessor"], "accprobe-attempts:" + ("0" if not impl.get("attempts") else ">0")]
     return ["alias-probe" if case.get("probe") else "subclassing"] + (["impl:skipped"] if "ok" not in impl else [])
 
 
@@ -390,8 +480,8 @@ def describe(case, impl, model):
         return {"immfield": case, "probe_changed": impl.get("probe"), "ctor_leaks": impl.get("ctor_leaks")}
     if case["suite"] == "undefimm":
         return {"undefimm": case, "steps": impl.get("steps")}
-    if case["suite"] == "deepimm":
-        return {"deepimm": case, "leaks": impl.get("leaks"), "attempts": impl.get("attempts")}
+    if case["suite"] in ("deepimm", "accprobe"):
+        return {case["suite"]: case, "leaks": impl.get("leaks"), "attempts": impl.get("attempts")}
     return {"cls": case["cls"], "kw": case["kw"], "probe_changed": impl.get("probe"), "ctor_leaks": impl.get("ctor_leaks")}
 
 
@@ -399,6 +489,10 @@ def judge(case, impl, model):
     fails = []
     if case["suite"] == "deepimm":
         return None, DI.judge(case, impl)
+    if case["suite"] == "accprobe":
+        return None, [(f"accessor-leak:{case['owner']}:{case['kind']}.{case['accessor']}:{r['mut']}",
+                       f"{case['owner']} ({case['shape']} {case['kind']} field) changed by {r['mut']} on an object handed out by "
+                       f"{case['accessor']} (canned argument tuple {r['args']})") for r in impl.get("leaks", [])]
     if case["suite"] == "undefimm":
         kind = "class" if case["immutable_class"] else "fields"
         for st in impl.get("steps", []):
